@@ -12,18 +12,18 @@ import (
 
 // Config of one worker process (JSON file named by VSIM_CONFIG).
 type Config struct {
-	Mode     string  `json:"mode"` // gen | replay
-	Prop     string  `json:"prop"`
-	Tier     string  `json:"tier"`
-	Seed     int64   `json:"seed"`
-	Worker   int     `json:"worker"`
-	NWorkers int     `json:"nworkers"`
-	BudgetS  float64 `json:"budget_s"`
-	MaxCases int     `json:"max_cases"`
-	Out      string  `json:"out"`
-	Replay   string  `json:"replay"`
-	Verbose  bool    `json:"verbose"`
-	MinimizeBudget int `json:"minimize_budget"`
+	Mode           string  `json:"mode"` // gen | replay
+	Prop           string  `json:"prop"`
+	Tier           string  `json:"tier"`
+	Seed           int64   `json:"seed"`
+	Worker         int     `json:"worker"`
+	NWorkers       int     `json:"nworkers"`
+	BudgetS        float64 `json:"budget_s"`
+	MaxCases       int     `json:"max_cases"`
+	Out            string  `json:"out"`
+	Replay         string  `json:"replay"`
+	Verbose        bool    `json:"verbose"`
+	MinimizeBudget int     `json:"minimize_budget"`
 }
 
 type record struct {
